@@ -65,7 +65,8 @@ PROPS["C09"] = adm_prop("c09", 1200, 30000, "C09_never_denied for all faults; C0
 PROPS["C10"] = adm_prop("c10", 1500, 40000, "C10_significance_characterised, C10_insignificant_allowed (allowed, unevaluated, whatever the policy), C10_updates_and_subresources (P10): significant updates answer like the CREATE, any subresource outside the 8 ignored names answers like no subresource; the 8 ignored ones are allowed with an empty trace.")
 PROPS["C11"] = adm_prop("c11", 1500, 40000, "C11_namespace (P11): create rejected (422, one cause per bad label) iff labels invalid; update iff new labels invalid and not invalid in the same way before; never rejected because of pods; the lister is called exactly when the dry run is required; the warnings equal the specification's report (one line per distinct violation text with least pod name and exact count, sorted); C11_order_independent; C11_counts_add_up. The clause 'one line per distinct set of violated controls' is evaluated separately (stream c11cs) and is a KNOWN FINDING (F3).",
     extra_streams=[{"name": "c11cs", "n_quick": 500, "n_thorough": 10000}])
-PROPS["C12"] = adm_prop("c12", 1500, 40000, "C12_dry_run (P12) for any cap, timeout, population, ownership pattern and expiry index: at most cap evaluations, in the prioritised order (one pod per controller before siblings: C12_prioritise), the truncation line says exactly k of n, and the report is exactly that of the pods checked (C12_warnings_exact); C12_deadline: the lister's deadline is min(request deadline, now + min(timeout, remaining/2)). Real cap 3000/1s and small caps via hook H3; the deadline seen by the lister is checked on the Go side against a scheduling-proof interval.",
+PROPS["C12"] = adm_prop("c12", 1500, 40000, "C12_dry_run (P12) for any cap, timeout, population, ownership pattern and expiry index: at most cap evaluations, in the prioritised order (one pod per controller before siblings: C12_prioritise), the truncation line says exactly k of n, and the report is exactly that of the pods checked (C12_warnings_exact); C12_deadline: the lister's deadline is min(request deadline, now + min(timeout, remaining/2)). Real cap 3000/1s and small caps via hook H3; the deadline seen by the lister is checked on the Go side against a scheduling-proof interval. Stream c12src: the real PodListerFromClient over a stub API server that honours limit/continue, including a namespace of 3000 replicas plus bare violating pods (above the cap): the answer must say how many of how many were checked and report exactly the checked pods' violations. Within stream c12, a third of the namespace requests that reach the dry run are also POSTed to HandleValidate with and without ?timeout=: the deadline the lister sees must be bounded by half of that timeout.",
+    extra_streams=[{"name": "c12src", "n_quick": 100, "n_thorough": 2000}],
     partial="that the Go runtime fires the timer and stops within one second of wall time is not expressible in the model; proved: deadline arithmetic and that the loop stops at the first observation of expiry")
 
 PROPS["C13"] = {
